@@ -363,7 +363,9 @@ func (p *untypedParamBinder) setFieldValue(target reflect.Value, defaultValue in
 		defVal = reflect.ValueOf(defaultValue)
 	}
 
-	if tpe == "byte" {
+	if tpe == "byte" && target.Kind() == reflect.Slice && target.Type().Elem().Kind() == reflect.Uint8 {
+		// a byte slice is filled with the decoded text; any other target (a pointer to
+		// strfmt.Base64, a string, ...) is handled by its kind below
 		if data == "" {
 			if target.CanSet() {
 				target.SetBytes(defVal.Bytes())
